@@ -126,3 +126,30 @@ package cache
 //@   requires ws != nil && !sync.mheld[&ws.mu]
 //@   ensures [cached-after] ws.snap != nil && (old(ws.snap) != nil ==> ws.snap == old(ws.snap))
 //@   ensures [lock-balanced] forall m *sync.Mutex :: { sync.mheld[m] } sync.mheld[m] == old(sync.mheld[m])
+
+// ---- lock discipline of the cache (C18): the sequentially checkable part -----------------------------
+// Each method below is entered without holding the sub-cache lock, never re-acquires a lock it holds
+// (sync.RWMutex is not re-entrant; a recursive RLock deadlocks as soon as a writer waits) and leaves
+// every lock as it found it on every return.
+//@ func (*SubCache).AllIds
+//@   props C18
+//@   opt locks
+//@   requires [not-held] sync.rwheld[&sc.mu] == 0
+//@   ensures [lock-balanced] forall m *sync.RWMutex :: { sync.rwheld[m] } sync.rwheld[m] == old(sync.rwheld[m])
+//@   modifies sync.rwheld
+//@   opt trusted_frame
+
+//@ func (*RepoCacheBug).Query
+//@   props C18
+//@   opt locks
+//@   stable all(RepoCacheBug.SubCache)
+//@   requires [not-held] c.SubCache != nil && sync.rwheld[&c.SubCache.mu] == 0
+//@   ensures [lock-balanced] forall m *sync.RWMutex :: { sync.rwheld[m] } sync.rwheld[m] == old(sync.rwheld[m])
+
+//@ func (*RepoCacheIdentity).finishIdentity
+//@   props C18
+//@   opt locks
+//@   opt assume_pre=identity.(*Identity)
+//@   stable all(RepoCacheIdentity.SubCache)
+//@   requires [not-held] c.SubCache != nil && sync.rwheld[&c.SubCache.mu] == 0
+//@   ensures [lock-balanced] forall m *sync.RWMutex :: { sync.rwheld[m] } sync.rwheld[m] == old(sync.rwheld[m])
